@@ -119,6 +119,7 @@ pub proof fn lemma_inc_pattern(s: Seq<u8>, t: Seq<u8>, i: int)
     }
 }
 
+pub open spec fn nonce_init() -> Seq<u8> { Seq::new(12, |i: int| 255u8) }
 /// the state of a fresh generator: all 0xff, so that the first nonce used is all zero
 pub open spec fn is_init(n: Seq<u8>) -> bool { n.len() == 12 && forall|i: int| 0 <= i < 12 ==> n[i] == 255 }
 pub proof fn lemma_init_first(n: Seq<u8>)
